@@ -64,8 +64,8 @@ pub fn run(args: &Args) -> i32 {
     run_cases(args, 0xC07, |case| {
         let mut rng = case.rng.fork();
         // workload
-        let kind = rng.below(10);
-        let (mut bytes, desc, wclass) = if kind < 5 {
+        let kind = rng.below(30);
+        let (mut bytes, desc, wclass) = if kind < 15 {
             let opts = jxlgen::imggen::ImgOpts { size_class: *rng.pick(&[2u32, 3, 3, 1]), max_dim: if thorough { 700 } else { 400 }, group_size_shift: Some(0), ..Default::default() };
             let mut g = None;
             for _ in 0..20 {
@@ -80,7 +80,7 @@ pub fn run(args: &Args) -> i32 {
             };
             let multi = i.fh.num_groups() > 1;
             (i.bytes.clone(), format!("{} | {}", i.desc, i.enc_desc), if multi { "modular-multigroup" } else { "modular-1group" })
-        } else if kind < 9 {
+        } else if kind < 29 {
             let opts = jxlgen::anim::AnimOpts { max_frames: 6, max_dim: if rng.chance(1, 3) { 300 } else { 48 }, multi_group: true, ..Default::default() };
             let mut g = None;
             for _ in 0..20 {
